@@ -104,6 +104,15 @@ def replay_file(doc):
         r = check_resume(doc["scenario"], doc["point"], doc["mode"], _trajectory(ref))
         hit = r is not None and r[0] == doc["clause"]
         return hit, (f"{r[0]}: {r[1]}" if hit else "clause holds on this tree")
+    if doc.get("kind") == "exception":
+        import importlib
+        try:
+            getattr(importlib.import_module(doc["module"]), doc["monitor"])(dict(doc.get("task", {}), prop=doc["property"]))
+        except Exception as e:
+            if harness_fault(e):
+                raise
+            return True, f"{type(e).__name__}: {e}"
+        return False, "no exception on this tree"
     if doc.get("kind") == "stoch_monitor":
         r = _stoch_run(doc["seed"])
         hit = [b for b in r["bad"] if b[0] == doc["clause"]]
